@@ -35,6 +35,7 @@ fn pred_key(p: Pred, k: u32, old: &BTreeSet<u32>) -> bool {
             let m = (m as u32).max(1);
             k % m == (r as u32) % m
         }
+        Pred::KeyBelow(n) => k < n,
     }
 }
 
